@@ -8,7 +8,8 @@
    for EVERY such function, so they hold for the real one.  "No 64-bit hash collision" is exactly the
    hypothesis of C01_no_collision_means_content (the only place where line content enters). *)
 From Coq Require Import List ZArith NArith.
-From PP Require Import Base.Lines Gen.Src_dedupe Probing.ProbingDefs Tools.DedupeDefs Tools.DedupeProofs.
+From PP Require Import Base.Lines Gen.Src_dedupe Probing.ProbingDefs Tools.DedupeDefs Tools.DedupeProofs
+  Tools.DedupeFull Tools.DedupeFullProofs Fields.FieldsDefs Fields.FieldsProofs Hash.MurmurDefs.
 Import ListNotations.
 Local Open Scope N_scope.
 
@@ -123,6 +124,27 @@ Theorem C01_tool_bytes :
   dedupe_tool key input = Ok (unrecords newline (first_occ (list Z) key (records newline true input))).
 Proof. intros. unfold dedupe_tool. rewrite dedupe_first_occ. reflexivity. Qed.
 Print Assumptions C01_tool_bytes.
+
+(* ---- the complete tool, no key taken from the implementation ----
+   dedupe -f FIELDS -d DELIM: the option string is parsed by the Fields model (C10), the key of a line is
+   MurmurHash64A (C14 model) of the line or of the selected fields, the lines come from the record
+   specification, the seen-set is the C13 table.  For every accepted option string and every input the
+   output bytes are the first occurrences by that key; rejected option strings abort before reading. *)
+Theorem C01_tool_complete :
+  forall (fields : list Z) (d : Z) (input : list Z) rs,
+  nonul fields -> parse_key_spec fields = Some rs ->
+  dedupe_tool_real fields d input =
+    ToolOk (unrecords newline (first_occ (list Z) (key_fn rs d) (records newline true input))).
+Proof. exact dedupe_tool_real_spec. Qed.
+Print Assumptions C01_tool_complete.
+
+(* "a\nb\na\n" through the whole model with real MurmurHash64A keys: the repeat is dropped;
+   with -f 2 and TAB the key is the second field only *)
+Example C01_nonvacuous_complete :
+  (dedupe_tool_real [49; 45] 9 [97; 10; 98; 10; 97; 10] = ToolOk [97; 10; 98; 10] /\
+   dedupe_tool_real [50] 9 [97; 9; 120; 10; 98; 9; 120; 10; 97; 9; 121; 10] = ToolOk [97; 9; 120; 10; 97; 9; 121; 10] /\
+   dedupe_tool_real [48] 9 [97; 10] = ToolBadOptions)%Z.
+Proof. repeat split; vm_compute; reflexivity. Qed.
 
 (* A line whose key equals the hash table's empty marker (0) is handled by the guard: kept at its
    first occurrence like any other line.  (Before the fix it was dropped at its only occurrence.) *)
